@@ -30,6 +30,7 @@ import (
 	"errors"
 	"fmt"
 	nurl "net/url"
+	"sort"
 	"strconv"
 
 	"github.com/markusmobius/go-domdistiller/internal/stringutil"
@@ -93,7 +94,17 @@ func NewQueryParamPagePattern(url *nurl.URL, queryName, queryValue string) (*Que
 
 func QueryParamPagePatternsFromURL(url *nurl.URL) []PagePattern {
 	patterns := []PagePattern{}
-	for key, values := range url.Query() {
+	queries := url.Query()
+	keys := make([]string, 0, len(queries))
+	for key := range queries {
+		keys = append(keys, key)
+	}
+	sort.Strings(keys)
+
+	// Iterate in sorted order, so the order of the patterns (and with it the
+	// order in which they are evaluated) doesn't depend on map iteration.
+	for _, key := range keys {
+		values := queries[key]
 		for _, value := range values {
 			pattern, err := NewQueryParamPagePattern(url, key, value)
 			if err == nil && pattern != nil {
